@@ -523,6 +523,8 @@ class XInterp(Interp):
 
     def farith(s, op, a, b):
         if isinstance(a, Special) or isinstance(b, Special):
+            # IEEE: finite / +-inf = 0; everything else involving a non-finite operand is treated as NaN (sign of infinities not tracked)
+            if op == 'fdiv' and isinstance(b, Special) and b.k in ('inf', '-inf') and not isinstance(a, Special): return Rat.const(0.0)
             return NAN
         if isinstance(a, Mag) or isinstance(b, Mag):
             if op not in ('fmul', 'fdiv'): raise NotImplementedError('%s on a magnitude' % op)
